@@ -108,6 +108,12 @@ func worker() {
 	for i := range mutexes {
 		mutexes[i] = lockedfile.MutexAt(filepath.Join(dir, fmt.Sprintf("lock%d", i)))
 	}
+	if os.Getenv("C06_CLOSE_STDIN") == "1" {
+		// a daemon-style process: standard input closed, so that files it opens next (the lock
+		// files among them) land on descriptor 0
+		os.Stdin.Close()
+		res.Acq["(worker process with descriptor 0 free)"]++
+	}
 	for words.Load(15) == 0 {
 		time.Sleep(200 * time.Microsecond)
 	}
@@ -267,7 +273,7 @@ func main() {
 		return
 	}
 	vlib.Main("C06", "exploration", 10*time.Minute, func(r *vlib.Run) {
-		r.Rule("rounds of P processes x G goroutines released together, each doing N acquisitions on 2-3 lock paths (regular files; every other round also one private character device or FIFO, whose truncation by Create/Write fails and is tolerated) through a random entry point (OpenFile O_RDONLY/O_WRONLY/O_RDWR, Open, Create, Edit, Mutex.Lock, inside Transform's function, inside the reader handed to Write), dwelling 0-300us inside, with seeded delays at the lockedfile.open/close hooks; one round in six runs its workers as uid 65534 on lock files they can read but not write (write-locking entry points must be refused, not weakened); every third round the workers run under strace, which makes every other flock call of every thread fail with EINTR (an interrupted lock request must be reissued, never taken for granted). Evaluations = acquisitions; distinct non-trivial = acquisitions that found a conflicting holder inside when they were invoked (had to wait), plus rounds.")
+		r.Rule("rounds of P processes x G goroutines released together, each doing N acquisitions on 2-3 lock paths (regular files; every other round also one private character device or FIFO, whose truncation by Create/Write fails and is tolerated) through a random entry point (OpenFile O_RDONLY/O_WRONLY/O_RDWR, Open, Create, Edit, Mutex.Lock, inside Transform's function, inside the reader handed to Write), dwelling 0-300us inside, with seeded delays at the lockedfile.open/close hooks; every second worker process closes its standard input first, so that lock files are opened on descriptor 0; one round in six runs its workers as uid 65534 on lock files they can read but not write (write-locking entry points must be refused, not weakened); every third round the workers run under strace, which makes every other flock call of every thread fail with EINTR (an interrupted lock request must be reissued, never taken for granted). Evaluations = acquisitions; distinct non-trivial = acquisitions that found a conflicting holder inside when they were invoked (had to wait), plus rounds.")
 		r.Assume("flock semantics of the host kernel; the occupancy word is updated only between an acquiring call's return and the releasing call's invocation")
 		base := vlib.Scratch()
 		rounds := r.Pick(6, 28)
@@ -369,7 +375,7 @@ func main() {
 				}
 				cmd.Env = append(os.Environ(), "C06_WORKER=1", "C06_DIR="+dir, "C06_OUT="+out,
 					fmt.Sprintf("C06_SEED=%d", r.SubSeed(fmt.Sprintf("w-%d-%d", round, p))%1_000_000),
-					fmt.Sprintf("C06_G=%d", G), fmt.Sprintf("C06_N=%d", N), fmt.Sprintf("C06_PATHS=%d", NP), fmt.Sprintf("C06_UNPRIV=%d", map[bool]int{true: 1}[unprivRound]), fmt.Sprintf("C06_NONREG=%d", nonreg), "C06_NONREG_KIND="+nonregKind, vlib.RaceEnv(racePrefix))
+					fmt.Sprintf("C06_G=%d", G), fmt.Sprintf("C06_N=%d", N), fmt.Sprintf("C06_PATHS=%d", NP), fmt.Sprintf("C06_CLOSE_STDIN=%d", p%2), fmt.Sprintf("C06_UNPRIV=%d", map[bool]int{true: 1}[unprivRound]), fmt.Sprintf("C06_NONREG=%d", nonreg), "C06_NONREG_KIND="+nonregKind, vlib.RaceEnv(racePrefix))
 				cmd.Stderr = os.Stderr
 				if err := cmd.Start(); err != nil {
 					r.Inconclusive(err.Error())
